@@ -112,6 +112,12 @@ theorem stack_bounded_partial (steps : List Step) (cfg : Cfg) (evs : List Ev) (s
     have := (hri.1.2 k hkc).2
     simp only [hkc] at h2; omega
 
+/-- the guard is the intended one: the compiled automaton has no epsilon edge to `Accept` exactly when the pattern's
+last step is not an `all` step (`lastIsAll steps false` = `kleene` flag of the last step, `false` for the empty pattern) —
+this is the guard the C05 judge uses for the KNOWN classification -/
+theorem trailing_guard_iff (steps : List Step) :
+    NoTrailingAll (compile steps) ↔ lastIsAll steps false = false := noTrailingAll_iff steps
+
 /-- the guard is satisfiable: `A -> all B -> C` does not end in `all` -/
 example : NoTrailingAll (compile [{ ty := 0, alias := some 0 }, { ty := 1, alias := some 1, kleene := true, pred := some (.cmpRef 0 .gt 1 0) },
                                   { ty := 2, alias := some 2 }]) := by
